@@ -18,12 +18,14 @@ u --> [a].
 u --> [a, b].
 u --> [].
 pb, [a] --> [b].
+pb2, [a, b] --> [b].
+pb3, "ba" --> [a].
 v(X, Y) --> [X], [Y].
 `
 
 var c17Items = []string{
 	"[]", "[a]", "[b]", "[a, b]", "\"ab\"",
-	"t(X)", "u", "pb", "v(X, Y)",
+	"t(X)", "u", "pb", "v(X, Y)", "pb2", "pb3",
 	"{X = a}", "{true}", "{fail}", "{Y = X}",
 	"\\+ [a]", "\\+ u", "\\+ pb", "\\+ t(X)",
 	"!",
@@ -61,6 +63,7 @@ func c17Case(rules []T, viaExpand bool, inputs []string) *h.ProgCase {
 }
 
 func c17Work(w *h.W) {
+	c17NestedWork(w)
 	inputs := c17Inputs(w.Pick(3, 4))
 	n := len(c17Items)
 	maxLen := w.Pick(2, 3)
@@ -73,7 +76,7 @@ func c17Work(w *h.W) {
 	}
 	for l := 1; l <= maxLen; l++ {
 		seqs(l, n, func(idx []int) bool {
-			for variant := 0; variant < 4; variant++ {
+			for variant := 0; variant < 9; variant++ {
 				if !w.Mine() {
 					continue
 				}
@@ -91,6 +94,12 @@ func c17Work(w *h.W) {
 					rules = []T{Cm("-->", head, body), rd("s(z, z) --> [b]")}
 				case 2: // with push-back
 					rules = []T{Cm("-->", Cm(",", head, ref.List(A("a"))), body), rd("s(z, z) --> [b]")}
+				case 4, 5, 6, 7, 8: // push-back lists of every shape: several terminals, a string, empty, a head variable
+					if l > 2 {
+						continue
+					}
+					pb := []string{"[a, b]", "\"ba\"", "[]", "[b, a, a]", "[X, b]"}[variant-4]
+					rules = []T{Cm("-->", Cm(",", head, rdv(pb, vars)), body), rd("s(z, z) --> [b]")}
 				case 3: // as a top-level alternative
 					if l > 2 {
 						continue
@@ -105,12 +114,61 @@ func c17Work(w *h.W) {
 	}
 }
 
+// cuts nested inside a parenthesised alternation or if-then-else of a grammar body (the translation
+// runs inner disjunctions through call/1, which makes such a cut local)
+var c17NestedCut = []string{
+	"([a], ! ; [])", "([a], ! ; [b])", "(! ; [a])", "([a] -> ! ; [b])", "(u, ! ; [a])", "([a] ; [b], !)", "(([a], !) ; [])",
+}
+
+// c17NotCommitted recognises the one known shape: the implementation gives the reference's answers in
+// order and then goes on with alternatives that the cut should have removed.
+func c17NotCommitted(r *h.StepResult) string {
+	if r.Impl.Status == "error" || r.RefState == "error" || len(r.Impl.Answers) <= len(r.RefAns) {
+		return ""
+	}
+	for i, a := range r.RefAns {
+		if r.Impl.Answers[i] != a {
+			return ""
+		}
+	}
+	return "the nested cut does not commit the rule: the reference's answers, then answers of alternatives the cut removes"
+}
+
+func c17NestedWork(w *h.W) {
+	inputs := c17Inputs(w.Pick(3, 4))
+	tails := []string{"", "[b]", "t(X)", "{Y = k}", "u"}
+	for _, nc := range c17NestedCut {
+		for _, before := range tails {
+			for _, after := range tails {
+				if !w.Mine() {
+					continue
+				}
+				vars := map[string]*ref.Var{}
+				var its []T
+				if before != "" {
+					its = append(its, rdv(before, vars))
+				}
+				its = append(its, rdv(nc, vars))
+				if after != "" {
+					its = append(its, rdv(after, vars))
+				}
+				// the alternation is never the whole body: followed (or preceded) by {true} if need be
+				if len(its) == 1 {
+					its = append(its, rdv("{true}", vars))
+				}
+				rules := []T{Cm("-->", rdv("s(X, Y)", vars), conj(its...)), rd("s(z, z) --> [a]"), rd("s(w, w) --> [a, b]")}
+				runProgCaseF(w, "dcg-nested-cut", c17NotCommitted, c17Case(rules, false, inputs), len(its))
+			}
+		}
+	}
+}
+
 var _ = strings.Join
 
 func init() {
 	h.Register(&h.Check{
 		ID: "C17",
-		Rule: "all grammars whose rule s(X,Y) --> Body ranges over every sequence of <= L body constructs out of 33 (terminal lists, strings, non-terminals with arguments, {}/1, \\+, !, call//N with extra arguments, ;, |, nested sequences, if-then(-else), a push-back non-terminal) over fixed non-left-recursive sub-grammars t//1, u//0, pb//0 (push-back), v//2; each in 4 variants (followed by a second rule; loaded through expand_term/2 + assertz/1; with a push-back head; as one of two top-level alternatives) x all input lists over {a,b} of length <= N (plus lists with c) through phrase/2 and phrase/3 (all remainders), and generation mode with unbound list / given remainder. Non-trivial = the reference yields an answer or error.",
+		Rule: "all grammars whose rule s(X,Y) --> Body ranges over every sequence of <= L body constructs out of 35 (terminal lists, strings, non-terminals with arguments, {}/1, \\+, !, call//N with extra arguments, ;, |, nested sequences, if-then(-else), a push-back non-terminal) over fixed non-left-recursive sub-grammars t//1, u//0, pb//0, pb2//0, pb3//0 (push-back of one terminal, of two, of a string), v//2; each in 9 variants (followed by a second rule; loaded through expand_term/2 + assertz/1; with a push-back head of one terminal, of two, of a string, empty, of three, with a head variable; as one of two top-level alternatives) x all input lists over {a,b} of length <= N (plus lists with c) through phrase/2 and phrase/3 (all remainders), and generation mode with unbound list / given remainder. plus 7 bodies with a cut NESTED inside a parenthesised alternation / if-then-else x 5 goals before x 5 goals after (known finding: such a cut is local here). Non-trivial = the reference yields an answer or error.",
 		Explanation: "state = one grammar loaded into a fresh real interpreter; transition = one phrase/2,3 query run to exhaustion; compared with a DIRECT interpreter of grammar bodies over difference lists inside the reference machine (sequence threads the remainder, alternation is a choice, {} calls, \\+ consumes nothing, ! commits to the rule, push-back re-prepends) - which never translates a rule - on success/failure, argument bindings, remainder and answer order",
 		Assumptions: []string{"'!' occurs only as a direct element of a rule's top-level sequence or alternative (as C03)", "double_quotes = chars so that \"ab\" denotes [a,b]"},
 		Work:        c17Work,
